@@ -270,3 +270,35 @@ func verifH_C05_client_errors() {
 	verifAssert(after == bState, "the sibling's connection state is untouched")
 	verifReach("end")
 }
+
+// C05_leave_rejoin: packets of one namespace that follow each other at once are judged in the state their predecessors
+// leave behind, not in the state at arrival: on a connection attached to "/" and "/a" one payload carries DISCONNECT /a
+// immediately followed by CONNECT /a (leave and re-join), or CONNECT /b immediately followed by an EVENT for /b. The
+// connection is not closed, "/" stays connected, and the namespace ends up attached again.
+//
+//verif:unwind 14
+//verif:rand concrete
+func verifH_C05_leave_rejoin() {
+	w := verifServerWorld("/", "/a", "/b")
+	w.conn.parser = &verifFrameParser{log: &w.encoded}
+	socks := w.verifConnected("/", "/a")
+	rootDisc := 0
+	socks["/"].OnDisconnect(func(Reason) { rootDisc++ })
+	rejoin := verifAnyBool()
+	if rejoin {
+		w.conn.onEIOPacket(verifMsg("1/a,"), verifMsg("0/a,"))
+	} else {
+		w.conn.onEIOPacket(verifMsg("0/b,"), verifMsg("2/b,ev"))
+	}
+	verifWaitQuiescent()
+	verifAssert(w.eio.closed == 0, "leaving and re-joining a namespace (or using one right after joining it) does not close the connection")
+	verifAssert(rootDisc == 0 && socks["/"].Connected(), "the other namespace stays connected")
+	if rejoin {
+		s2, ok := w.conn.sockets.getByNsp("/a")
+		verifAssert(ok && s2 != socks["/a"] && s2.Connected() && !socks["/a"].Connected(), "the namespace is attached again, with a new socket; the old one is disconnected")
+	} else {
+		_, ok := w.conn.sockets.getByNsp("/b")
+		verifAssert(ok, "the namespace is attached")
+	}
+	verifReach("end")
+}
